@@ -2,7 +2,7 @@
    Property theorems only; proofs live in UnixProofs.v / CoreSched.v / CoreProofs.v. *)
 From Coq Require Import List NArith Bool.
 Import ListNotations.
-From TP Require Import Core Path Unix Spec Ops UnixProofs.
+From TP Require Import Core Path Unix StdUnix Spec Ops UnixProofs StdProofs.
 
 (* For every byte string p and every schedule of front/back steps, what the model of
    typed-path's Unix parser answers (components, and after every step the remaining bytes)
@@ -28,6 +28,39 @@ Theorem C01_interleave : forall (p : list N) (sched : list bool),
   = deq_run (ucomps p) sched.
 Proof. exact u_sched_spec. Qed.
 Print Assumptions C01_interleave.
+
+(* "exactly as std::path does": the Gallina transcription of std's Components state machine (StdUnix.v,
+   diffed against the real std::path on every explored case) yields the same specification list from
+   the front and, reversed, from the back; its remainder (as_path, with std's trimming) after any number
+   of front steps, or of back steps, reads as the not yet consumed components; it reports a root exactly
+   when the model does *)
+Theorem C01_std_front : forall l : list N, s_components l = ucomps l.
+Proof. exact s_components_spec. Qed.
+Theorem C01_std_back : forall l : list N, back_all scomps comp s_nextb (S (length l)) (s_init l) = rev (ucomps l).
+Proof. exact s_components_rev_spec. Qed.
+Theorem C01_std_front_step : forall c : scomps, FInv c ->
+  match s_nextf c with Some (x, c') => fcs c = x :: fcs c' /\ FInv c' | None => fcs c = [] end.
+Proof. exact s_next_front_step. Qed.
+Theorem C01_std_back_step : forall c : scomps, BInv c ->
+  match s_nextb c with Some (x, c') => bcs c = bcs c' ++ [x] /\ BInv c' | None => bcs c = [] end.
+Proof. exact s_next_back_step. Qed.
+Theorem C01_std_remainder_front : forall c : scomps, FInv c -> s_front c = SBody -> ucomps (s_as_path c) = fcs c.
+Proof. exact s_as_path_front. Qed.
+Theorem C01_std_remainder_back : forall c : scomps, BInv c ->
+  ucomps (s_as_path c) = bcs c /\ exists j, s_path c = s_as_path c ++ j.
+Proof. exact s_as_path_back. Qed.
+Theorem C01_std_has_root : forall l : list N, s_has_root l = u_has_root l.
+Proof. exact s_has_root_spec. Qed.
+Print Assumptions C01_std_front.
+Print Assumptions C01_std_back.
+Print Assumptions C01_std_front_step.
+Print Assumptions C01_std_back_step.
+Print Assumptions C01_std_remainder_front.
+Print Assumptions C01_std_remainder_back.
+Print Assumptions C01_std_has_root.
+(* C01_std_interleave_partial: for the transcription, arbitrary interleavings of front and back steps
+   (where std's front and back state meet in the middle) are not proved; front-only and back-only runs
+   are.  Arbitrary interleavings of the real std::path are compared on every explored case. *)
 
 (* non-vacuity: a concrete path with root, a "." segment, "..", doubled separators, mixed schedule *)
 Example C01_example :
